@@ -3,6 +3,7 @@
 From Coq Require Import String.
 From Coq Require Import List NArith ZArith Bool Permutation.
 From SeataV Require Import Remoting.ProcessorModel Remoting.ProcessorProofs Gen.DispatchTable.
+From SeataV Require Remoting.FuturesModel Remoting.FuturesProofs Gen.FuturesCfg.
 Import ListNotations.
 Open Scope string_scope.
 
@@ -50,3 +51,10 @@ Lemma go_independent mgrs (s s' : stream) out out' :
   Permutation s s' -> merge (per_request go_dispatch mgrs s) out -> merge (per_request go_dispatch mgrs s') out' ->
   Permutation out out'.
 Proof. apply independent. Qed.
+
+(* the reply does not depend on the client's own pending requests: sending a response under ANY id
+   (in particular one that a pending client request carries: both id spaces are small integers)
+   leaves the pending-request table as it is, and nothing in `process` reads that table *)
+Lemma go_reply_ignores_pending_table (s : FuturesModel.st) id wf :
+  FuturesModel.step FuturesCfg.go_futures_cfg s (FuturesModel.EWrite id wf) = s.
+Proof. apply FuturesProofs.write_inert. vm_compute. reflexivity. Qed.
